@@ -447,3 +447,32 @@ func (g *Gen) addTypedStoresDemo() *S {
 	p.Funcs = append([]*Func{{Name: name, Body: body}, setFn, setM}, p.Funcs...)
 	return &S{K: "expr", E: &E{K: "call", Fn: name, NRes: 0}}
 }
+
+// addShowDemo: struct references rendered as a whole (&{Name:value ...}): fields appear in the order of the type's own
+// declaration, also when another type declares the same field names in another order.
+func (g *Gen) addShowDemo() *S {
+	r := g.r
+	p := g.prog
+	tag := fmt.Sprintf("%d", len(p.Funcs))
+	size, rect := "Size"+tag, "Rect"+tag
+	a, b := &StructDef{Name: size, Fields: []string{"H", "W"}, FTypes: []*Ty{TInt, TInt}},
+		&StructDef{Name: rect, Fields: []string{"W", "H", "Name", "Ok"}, FTypes: []*Ty{TInt, TUint8, TString, TBool}}
+	if r.Intn(2) == 0 {
+		p.Structs = append(p.Structs, a, b)
+	} else {
+		p.Structs = append(p.Structs, b, a)
+	}
+	show := func(x *E) *E { return &E{K: "lib", Ty: TString, Fn: "fmt.Sprint", Args: []*E{x}} }
+	ps, prc := PtrTo(size), PtrTo(rect)
+	body := []*S{
+		dcl("s", newS(size, "W", lit(TInt, int64(r.Intn(9))), "H", lit(TInt, int64(r.Intn(9))))),
+		dcl("q", newS(rect, "Name", sS([]string{"r", "", "a b"}[r.Intn(3)]), "H", lit(TUint8, int64(r.Intn(200))), "W", lit(TInt, int64(r.Intn(9))))),
+		pr(sS("show"), show(v("s", ps)), show(v("q", prc))),
+		asg(fld(v("q", prc), "Ok", TBool), &E{K: "bool", Ty: TBool, B: true}),
+		asg(fld(v("s", ps), "H", TInt), lit(TInt, int64(10+r.Intn(9)))),
+		pr(sS("show2"), show(v("q", prc)), show(v("s", ps)), show(newS(size))),
+	}
+	name := "showDemo" + tag
+	p.Funcs = append([]*Func{{Name: name, Body: body}}, p.Funcs...)
+	return &S{K: "expr", E: &E{K: "call", Fn: name, NRes: 0}}
+}
